@@ -179,9 +179,9 @@ def r03_7_unix_time_floors(ctx: Ctx) -> RuleResult:
 
 # shared with C11: the sign with which an offset enters instant <-> local conversions (Instant._plus/_safe_plus,
 # _LocalInstant._minus/_safe_minus, Duration._plus/_minus_small_nanoseconds are C03 arithmetic); home id R11.4
-from .c11 import r11_4_sign_discipline as _r11_4  # noqa: E402
+# (cross-registration moved to sa/rules/shared.py: SHARED)
 
-rule("C03")(_r11_4)
+# (cross-registration moved to sa/rules/shared.py: SHARED)
 
 
 @rule("C03")
